@@ -142,7 +142,56 @@ def cfg_as(bit_config, k):
         return collections.OrderedDict(bit_config)
     if k == 3:
         return collections.ChainMap({}, bit_config)          # overrides (none) in front of a base layout
+    if k == 4:
+        return derived_cfg(bit_config)
     return bit_config
+
+
+_DERIVED = {}
+_PRED = {'FIXED': 'LLVAR', 'LLVAR': 'LLLVAR', 'LLLVAR': 'LLVAR'}
+_EDITED = ('field_type', 'field_processor', 'field_python_type', 'field_date_format')
+
+
+def derived_cfg(bit_config):
+    """The same configuration reached the way a site arrives at it: an earlier layout (other length kinds, no field
+    processors, no value types) was in use for a while - one message per element written and read back - then the site
+    copied it (copy.deepcopy) and edited every element to today's definition.  In every documented key the result
+    equals `bit_config`; whatever the library left behind in the earlier layout's dictionaries travels with the copy."""
+    import threading
+    key = (id(bit_config), threading.get_ident())
+    hit = _DERIVED.get(key)
+    if hit is not None and hit[0] is bit_config:
+        return hit[1]
+    base = copy.deepcopy(dict(bit_config))
+    for bit, d in base.items():
+        if not isinstance(d, dict):
+            continue
+        if d.get('field_type') in _PRED:
+            d['field_type'] = _PRED[d['field_type']]
+        d.pop('field_processor', None)
+        d.pop('field_python_type', None)
+    for bit, d in base.items():
+        if not isinstance(d, dict) or str(bit) == '1':
+            continue
+        try:
+            n = max(1, min(int(d.get('field_length', 1)), 12))
+            for enc in ('latin_1', 'cp500'):
+                b = iso8583.dumps({'MTI': '1144', 'DE%s' % bit: '1' * n}, encoding=enc, iso_config=base)
+                iso8583.loads(b, encoding=enc, iso_config=base)
+        except Exception:  # noqa - the earlier layout's traffic is not judged
+            pass
+    derived = copy.deepcopy(base)
+    for bit, d in derived.items():
+        orig = bit_config[bit]
+        if not isinstance(d, dict):
+            continue
+        for k in _EDITED:
+            if k in orig:
+                d[k] = copy.deepcopy(orig[k])
+            else:
+                d.pop(k, None)
+    _DERIVED[key] = (bit_config, derived)
+    return derived
 
 
 def do_dumps(m, encoding, bit_config, hex_bitmap):
@@ -151,7 +200,7 @@ def do_dumps(m, encoding, bit_config, hex_bitmap):
     try:
         with Watchdog(5.0):
             m1 = copy.deepcopy(m)
-            b = iso8583.dumps(m1, encoding=encoding, iso_config=cfg_as(bit_config, cfgk if cfgk < 4 else 0), hex_bitmap=hex_bitmap)
+            b = iso8583.dumps(m1, encoding=encoding, iso_config=cfg_as(bit_config, cfgk if cfgk < 5 else 0), hex_bitmap=hex_bitmap)
             if _pick(7, 'again', len(b) if isinstance(b, (bytes, bytearray)) else 0, encoding) == 3:
                 # the same dictionary object handed to dumps a second time (the first call may have added to it)
                 b2 = iso8583.dumps(m1, encoding=encoding, iso_config=bit_config, hex_bitmap=hex_bitmap)
@@ -180,7 +229,7 @@ def do_loads(b, encoding, bit_config, hex_bitmap, rt=False, secs=4.0, secret='')
     cfgk = _pick(9, 'cfgl', len(b), bytes(b[-3:])) if isinstance(bit_config, dict) else 0
     try:
         with Watchdog(secs):
-            d = iso8583.loads(arg, encoding=encoding, iso_config=cfg_as(bit_config, cfgk if cfgk < 4 else 0), hex_bitmap=hex_bitmap)
+            d = iso8583.loads(arg, encoding=encoding, iso_config=cfg_as(bit_config, cfgk if cfgk < 5 else 0), hex_bitmap=hex_bitmap)
             if isinstance(arg, bytearray):
                 arg[:] = b'\xee' * len(arg)          # the buffer is re-used; what was returned may not change
             if argk == 3:
